@@ -304,6 +304,7 @@ def reuse(ctx, res, rule):
     for (gname, who), alts in sorted(seqs.items()):
         for after in sorted(alts):
             problems = []
+            und = None
             for interval in (2, 16):
                 I = M.MemInterp(prog, U)
                 I.max_paths = 20000
@@ -358,6 +359,11 @@ def reuse(ctx, res, rule):
                             problems += pr
                 except M.MemFault as e:
                     problems.append("interval %d: %s" % (interval, e))
+                except BrokenAnalysis as e:
+                    und = "interval %d: %s" % (interval, e)
+            if und and not problems:
+                res.undecided(rule, "%s:%s: %s" % (gname, who, und))
+                continue
             res.check(not problems, rule, "%s:%s:reuse-after-finish%s" % (gname, who, "+" + "+".join(after) if after else ""),
                       "after finish%s the builder produces a block holding exactly the next entries" % (" and " + ", ".join(after) if after else ""),
                       "a finished builder is not fit for the next block: %s" % "; ".join(problems[:2]), prog.need(gname, WU).loc(prog.need(gname, WU).body))
